@@ -89,6 +89,20 @@ def replay(ctx: Ctx, recs: List[Dict[str, Any]]) -> None:
                 if not torch.equal(paths, keep):
                     ctx.violation(f"payoff:{kind}:mutates", "payoff function modified the price tensor", {})
                     paths = keep.clone()
+                # the same call with the arguments given POSITIONALLY, in the documented order of the signature
+                try:
+                    if kind in fns:
+                        pos = fns[kind](paths, call, K)
+                    elif kind == "forward_start":
+                        pos = F.european_forward_start_payoff(paths, K, start)
+                    else:
+                        pos = F.realized_variance(paths, DT) - K
+                    ctx.count(n=len(rs))
+                    if pos.shape != got.shape or not torch.equal(pos, got):
+                        ctx.violation(f"payoff:{kind}:positional", f"{kind} payoff function: positional arguments in the documented order give another result than the keywords",
+                                      {"strike": r0["strike"], "call": call, "start": start, "keyword": got.flatten().tolist()[:4], "positional": pos.flatten().tolist()[:4]})
+                except Exception as e:
+                    ctx.violation(f"payoff:{kind}:positional", f"{kind} payoff function raised {type(e).__name__} for positional arguments in the documented order", {"error": repr(e)[:200]})
             # ---- derivative classes, with clauses in registration order
             stock = BrownianStock(dt=DT, dtype=dtype)
             stock.register_buffer("spot", paths.clone())
